@@ -34,7 +34,7 @@ def strip_cast(t):
 
 def analyse(rep, prog, name, full):
     f = need(prog, GE + name)
-    S = Sym(prog)
+    S = Sym(prog, inline=inline_helpers(prog, "sempler.generators"))
     run_function(S, f)
     rets = S.select("return", qname=f.qname)
     mats = []
